@@ -3,6 +3,7 @@ package main
 // C16, Boneh–Franklin IBE (encrypt/ibe): CCA on G1 and on G2, CPA on G1.
 
 import (
+	"bytes"
 	"fmt"
 	"math/big"
 
@@ -51,6 +52,12 @@ func ibeDecStr(v ibeVariant, s pairing.Suite, priv kyber.Point, ct *ibe.Cipherte
 	return kc.Recover(func() string {
 		cp := &ibe.Ciphertext{U: ct.U.Clone(), V: append([]byte{}, ct.V...), W: append([]byte{}, ct.W...)}
 		pt, err := v.dec(s, priv, cp)
+		// decryption reads the ciphertext: the same object decrypts to the same plaintext a second time and
+		// still holds the bytes it held
+		pt2, err2 := v.dec(s, priv, cp)
+		if (err == nil) != (err2 == nil) || !bytes.Equal(pt, pt2) || !cp.U.Equal(ct.U) || !bytes.Equal(cp.V, ct.V) || !bytes.Equal(cp.W, ct.W) {
+			return "err:ciphertext-object-changed-by-decryption"
+		}
 		if err != nil {
 			return "err"
 		}
@@ -390,7 +397,12 @@ func ibeCPACase(c *kc.Ctx, s ibeSuite, rng *kc.Rng, msg []byte, cases *[]*encCas
 		}
 	} else {
 		got := kc.Recover(func() string {
-			pt, err := ibe.DecryptCPAonG1(s.s, priv, &ibe.CiphertextCPA{RP: ct.RP.Clone(), C: append([]byte{}, ct.C...)})
+			cp := &ibe.CiphertextCPA{RP: ct.RP.Clone(), C: append([]byte{}, ct.C...)}
+			pt, err := ibe.DecryptCPAonG1(s.s, priv, cp)
+			pt2, err2 := ibe.DecryptCPAonG1(s.s, priv, cp)
+			if (err == nil) != (err2 == nil) || !bytes.Equal(pt, pt2) || !cp.RP.Equal(ct.RP) || !bytes.Equal(cp.C, ct.C) {
+				return "err:ciphertext-object-changed-by-decryption"
+			}
 			if err != nil {
 				return "err"
 			}
